@@ -1,6 +1,7 @@
 """C01  Content round trip: what is written is what is read, for every codec chain.
 Engine wsim, fault-free configuration (DESIGN.md 4, C01): seeded session history on a simulated device, seeded
 knobs (block size, chunk limit, buffer size), device kinds, deterministic clock and RNG, reference model."""
+import json
 import os
 import shutil
 
@@ -59,6 +60,17 @@ def gen_case(rng: Rng, i: int, tier: str):
             skip += ln
         sess["ops"] = ops_
     target = r.wpick([(4, "path"), (3, "stream"), (2, "bufobj"), (2, "mv")])
+    rp = rng.sub("plant")
+    fam_ids = [f["id"] for f in (sess.get("chain") or [])]
+    plant = None
+    if any(x in fam_ids for x in ("BROTLI", "ZSTD", "COPY")) and "AES" not in fam_ids and not any(x in fam_ids for x in ("X86", "ARM", "ARMT", "PPC", "SPARC", "DELTA", "IA64")) and rp.chance(0.5):
+        # directed: one incompressible member (stored verbatim by these codecs) in which the skippable-frame magic of the
+        # zstd/brotli-mt container formats is planted exactly on a read-block boundary of the packed stream (second pass in run_case)
+        plant = "502a4d18"
+        nm = gen.gen_names(rp, 1, style="ascii", safe_prefix=True)[0]
+        sess["ops"] = [{"op": "writestr", "name": nm, "content": {"tex": "rand", "len": rp.pick([300, 1000, 5000]), "seed": rp.randrange(1 << 30)}, "as": "bytes"}]
+        if target == "mv":
+            target = "path"
     vol = r.pick([64, 65, 100, 1000, 4096, 100000])
     if target == "mv":
         # multivolumefile writes a block recursively, one volume per level: keep block / volume below the recursion limit
@@ -66,6 +78,9 @@ def gen_case(rng: Rng, i: int, tier: str):
     case = {"session": sess, "target": target, "knobs": knobs, "rng": r.randrange(1 << 30),
             "read": {"kind": r.pick(["path", "stream"]), "block": gen.gen_knobs(r)["block"], "chunk": gen.gen_knobs(r)["chunk"]},
             "volume": vol, "path_extract": pathx}
+    if plant:
+        case["plant"] = plant
+        case["read"]["block"] = rp.pick([16, 17, 255, 4096])
     if big:
         # megabyte members through a one-byte chunk limit / 16-byte read block are millions of traced decoder calls: the
         # case would only ever meet the wall-clock backstop.  Big members are read with big knobs; tiny knobs meet small members.
@@ -91,6 +106,44 @@ def _size_class(n, block):
         if n in (k - 1, k, k + 1):
             return nm + "%+d" % (n - k)
     return "<B" if n < block else ">B"
+
+
+def _plant(case, fs, sess, knobs, clock):
+    """Second pass for codecs that store incompressible data verbatim: find where the member's bytes sit in the packed stream,
+    put a word the decoder gives a meaning to (a frame magic) exactly where a read-block boundary of the READER falls, and
+    write the archive again.  Returns (fs, added) of the second pass, or None when the stream is not verbatim."""
+    import ref7z
+
+    word = bytes.fromhex(case["plant"])
+    image = fs.get(rw.SIM_PATH).snapshot()
+    try:
+        a = ref7z.read(image, sess.get("password"), decode_data=False)
+        pi = a.main["packinfo"]
+        P = image[32 + pi["packpos"]: 32 + pi["packpos"] + pi["sizes"][0]]
+    except Exception:
+        return None
+    R = gen.materialize(sess["ops"][0]["content"])
+    rb = case["read"]["block"]
+    for b in list(range(rb, len(P) - 8, rb))[:64]:
+        for shift in range(0, 48):
+            k = b - shift
+            if k >= 0 and k + 8 <= len(R) and P[b:b + 8] == R[k:k + 8]:
+                R2 = R[:k] + word + R[k + len(word):]
+                sess2 = json.loads(json.dumps(sess))
+                sess2["ops"][0]["content"] = {"hex": R2.hex()}
+                fs2 = SimFS(buffer_size=knobs["bufsize"])
+                with Seams(fs=fs2, blocksize=knobs["block"], memlimit=knobs["chunk"], clock=clock, rand=SimRandom(Rng(case["rng"], "iv"))):
+                    try:
+                        added2, err2 = rw.run_write_session(fs2, sess2, case["target"], knobs["bufsize"])
+                    except rw.Rejected:
+                        return None
+                if err2 is not None:
+                    return None
+                image2 = fs2.get(rw.SIM_PATH).snapshot()
+                if image2[32 + pi["packpos"] + b: 32 + pi["packpos"] + b + len(word)] == word:
+                    return fs2, added2
+                break
+    return None
 
 
 def run_case(case):
@@ -137,6 +190,13 @@ def run_case(case):
             viol("write_session_raised", "close" if len(added) == len(sess["ops"]) else "write", "accepted chain %s, session raised %r after %d members" % (fam, err, len(added)), error=type(err).__name__)
             res["digest"] = digest_of(["raised", repr(err)[:100]])
             return res
+        if case.get("plant") and case["target"] != "mv" and len(sess["ops"]) == 1 and sess["ops"][0]["op"] == "writestr":
+            planted = _plant(case, fs, sess, knobs, clock)
+            if planted is not None:
+                fs, added = planted
+                res["probes"]["magic_word_planted_on_chunk_boundary"] = 1
+            else:
+                res["probes"]["magic_word_planted_on_chunk_boundary"] = 0
         model = rw.pairs(added)
         want_names = [n for n, _ in model]
         want = {n: d for n, d in model}
